@@ -205,6 +205,24 @@ def run_case(case, ctx):
       if winners.setdefault(r, w) != w and not same_slot(parts, w, winners[r]):
         ctx.violation("order_dependence", "r=%r: listing %s selects range %s but another listing selected %s" % (r, list(perm), w, winners[r]), what="order_dependence")
         return
+  # ---------------- API usage variant: one object whose ranges are replaced through the public range_defns property
+  # between evaluations at the SAME separation (nothing remembered from the old set may be used for the new one)
+  parts2 = [[(">=" if m == ">" else ">") if (k + n) % 2 else m, s + (0.5 if k % 2 else 0.0), [c[0] + 1000.0, c[1] - 3.0, c[2] + 0.5]] for k, (m, s, c) in enumerate(parts)]
+  mk = lambda ps, order: [Multi_Range_Defn(ps[i][0], ps[i][1], pf.polynomial(*ps[i][2])) for i in order]
+  f = create_Multi_Range_Potential_Form(*mk(parts, range(n)))
+  pts2 = sorted(set(pts) | set(points(parts2)))
+  cur = parts
+  for j, r in enumerate(eval_orders(pts2, rng)[:3 * len(pts2)]):
+    if judge(ctx, cur, f, r, "api-reassigned-ranges", "as set") in ("err", "bad"):
+      return
+    cur = parts2 if cur is parts else parts
+    order = list(range(n))
+    rng.shuffle(order)
+    newdefs = mk(cur, order)
+    f.range_defns = [tuple(newdefs), newdefs, (d for d in newdefs)][j % 3]
+    if judge(ctx, [cur[i] for i in order], f, r, "api-reassigned-ranges", "after range_defns assignment") in ("err", "bad"):
+      return
+    ctx.count("reassignments_checked")
   # ---------------- potable route: all listings of this set in one file; the first part may omit '>0'
   lines = []
   metas = []
